@@ -538,7 +538,14 @@ package render
 //@   assert [near-second-corner] sq(fv - s.Evaluate(p2)) <= sq(1 - tt)*h2
 //@   assert [corner-signs] s.Evaluate(p1) < 0 && 0 <= s.Evaluate(p2) && h2 >= 0
 //@   generalize v
-//@   focus parameter-in-unit-interval near-first-corner near-second-corner corner-signs
+//@   let el = sqrt(h2)
+//@   assert [edge-length] el >= 0 && sq(el) == h2
+//@   focus parameter-in-unit-interval near-first-corner near-second-corner corner-signs edge-length
+//@   assert [within-t-edge-lengths-of-the-first-corner-value] abs(fv - s.Evaluate(p1)) <= tt*el
+//@   assert [within-the-rest-of-the-edge-of-the-second] abs(fv - s.Evaluate(p2)) <= (1 - tt)*el
+//@   focus parameter-in-unit-interval corner-signs edge-length within-t-edge-lengths-of-the-first-corner-value within-the-rest-of-the-edge-of-the-second
+//@   assert [so-within-one-edge-length-of-zero] abs(fv) <= el
+//@   focus edge-length so-within-one-edge-length-of-zero
 //@   ensures [field-at-the-vertex-is-at-most-one-edge-length] sq(fv) <= h2
 //@ end
 
